@@ -209,11 +209,38 @@ impl ExecGen {
     }
 }
 
-fn spec_gen(pieces: &[Piece], s: &mut String) -> Result<(), String> {
-    // The spec form is a left-nested concatenation of parts; a part is either a maximal run of literal
-    // tokens / groups (`Seq::empty().push(a).push(b)`) or an interpolated sequence.  (Measured: Z3 proves
-    // `=~=` between the builder's push/add chain and this form quickly, whereas a spec of the shape
-    // `.add(x).push(c)` exhausts the resource limit.)
+/// Spec form of a template.
+/// * top level (`mirror == false`): a left-nested concatenation of parts, a part being a maximal run of literal tokens /
+///   groups (`Seq::empty().push(a).push(b)`) or an interpolated sequence.  (Measured: Z3 proves `=~=` between the
+///   builder's push/add chain and this form quickly, whereas a top-level spec of the shape `.add(x).push(c)` exhausts
+///   the resource limit.)
+/// * inside a group (`mirror == true`): exactly the builder's chain (`.push` per literal / group, `.add` per
+///   interpolation), because the content of a `Tok::G(..)` must be *syntactically* equal on both sides - extensional
+///   equality is not applied under a datatype constructor.  A group that consists of one interpolation only is the
+///   interpolated sequence itself (`# [ #inner ]` composes specs).
+fn spec_gen(pieces: &[Piece], mirror: bool, s: &mut String) -> Result<(), String> {
+    if mirror {
+        if pieces.len() == 1 {
+            if let Piece::Interp(x) = &pieces[0] {
+                s.push_str(x);
+                return Ok(());
+            }
+        }
+        s.push_str("Seq::<Tok>::empty()");
+        for p in pieces {
+            match p {
+                Piece::Lit(t) => write!(s, ".push(Tok::T({}))", tok_marker(t)).unwrap(),
+                Piece::Group(d, inner) => {
+                    let mut g = String::new();
+                    spec_gen(inner, true, &mut g)?;
+                    write!(s, ".push(Tok::G({}, {}))", delim_name(*d), g).unwrap();
+                }
+                Piece::Interp(x) => write!(s, ".add({})", x).unwrap(),
+                Piece::Rep(..) => return Err("unsupported construct: repetition in a spec template (use a spec function and #name)".into()),
+            }
+        }
+        return Ok(());
+    }
     let mut parts: Vec<String> = Vec::new();
     let mut run: Option<String> = None;
     for p in pieces {
@@ -224,7 +251,7 @@ fn spec_gen(pieces: &[Piece], s: &mut String) -> Result<(), String> {
             }
             Piece::Group(d, inner) => {
                 let mut g = String::new();
-                spec_gen(inner, &mut g)?;
+                spec_gen(inner, true, &mut g)?;
                 let r = run.get_or_insert_with(|| "Seq::<Tok>::empty()".to_string());
                 write!(r, ".push(Tok::G({}, {}))", delim_name(*d), g).unwrap();
             }
@@ -254,6 +281,6 @@ fn spec_gen(pieces: &[Piece], s: &mut String) -> Result<(), String> {
 pub fn spec_template(ts: TokenStream) -> Result<String, String> {
     let pieces = parse_pieces(ts)?;
     let mut s = String::new();
-    spec_gen(&pieces, &mut s)?;
+    spec_gen(&pieces, false, &mut s)?;
     Ok(s)
 }
